@@ -66,13 +66,13 @@ def items_for(tier):
         bmc_every = 4
     else:
         ex = gen_re.exhaustive_regexes(EXH['quick'])
-        rnd = gen_re.random_regexes(300)
+        rnd = gen_re.random_regexes(340)
         bmc_every = 2
     items = []
     for i, (src, form, size) in enumerate(ex):
         items.append((src, form, 'ast%d' % size, i % bmc_every == 0))
     for i, (src, form, kind) in enumerate(rnd):
-        items.append((src, form, kind, kind == 'two-inverted' or i % bmc_every == 0))
+        items.append((src, form, kind, kind != 'random' or i % bmc_every == 0))
     return items, len(ex), len(rnd)
 
 
